@@ -65,10 +65,10 @@ public:
             // Loop over diagonals starting from the first row and the first
             // column
             for (size_t k = 0; k < 2; k++) {
-                if (k == 0 && w <= x.ncols()) {
+                if (k == 0 && w < x.ncols()) {
                     i_start = 0;
                     j_start = w;
-                } else if (k == 1 && w <= x.nrows() && w != 0) {
+                } else if (k == 1 && w < x.nrows() && w != 0) {
                     i_start = w;
                     j_start = 0;
                 } else {
